@@ -260,6 +260,9 @@ def display_image(im, scaling='auto', vert_axis='x', horiz_axis='y',
     if np.iscomplex(im).any():
         warn("Image contains complex values. Taking image magnitude.")
         im = np.abs(im)
+    if im.dtype == bool:
+        # numpy cannot subtract booleans to scale them
+        im = im.astype('d')
     if scaling == 'auto':
         scaling = (ensure_scalar(im.min()), ensure_scalar(im.max()))
     if scaling is not None:
